@@ -184,7 +184,11 @@ func Project(cfg *Cfg, ssn *framework.Session) (M, error) {
 		queues[qn] = M{"ag": milli(q.GPU.Allocated), "anpg": milli(q.GPU.AllocatedNotPreemptible), "rqg": milli(q.GPU.Request),
 			"ac": int(math.Round(q.CPU.Allocated)), "anpc": int(math.Round(q.CPU.AllocatedNotPreemptible)), "rqc": int(math.Round(q.CPU.Request))}
 	}
-	return M{"pods": pods, "nodes": nodes, "jobs": jobs, "queues": queues}, nil
+	claims, err := ProjectClaims(cfg, ssn)
+	if err != nil {
+		return nil, err
+	}
+	return M{"pods": pods, "nodes": nodes, "jobs": jobs, "queues": queues, "claims": claims}, nil
 }
 
 // ProjectOps is the op-log projection (name, pod, undo target, validity) of the real statement.
